@@ -107,7 +107,13 @@ def build_harness(feat='default', quiet=True):
     """(re)build the harness against the current /repo working tree; returns the binary path"""
     cfg = FEATS[feat]
     tdir = os.path.join(HARNESS, 'target', feat)
-    cmd = ['cargo'] + ([cfg['toolchain']] if cfg['toolchain'] else []) + ['build', '--offline', '--target-dir', tdir] + cfg['args']
+    extra = []
+    if REPO != '/repo':
+        # VERIF_REPO=<dir>: check a copy of the repository (e.g. a scratch worktree with a seeded change) instead
+        # of /repo itself: cargo's `paths` override replaces the path dependency, in a target directory of its own
+        tdir = os.path.join(HARNESS, 'target', feat + '-' + sha(REPO))
+        extra = ['--config', 'paths=["%s"]' % REPO]
+    cmd = ['cargo'] + ([cfg['toolchain']] if cfg['toolchain'] else []) + ['build', '--offline', '--target-dir', tdir] + extra + cfg['args']
     env = dict(os.environ)
     env['CARGO_NET_OFFLINE'] = 'true'
     t0 = time.time()
